@@ -661,6 +661,9 @@ class VAMTransmissionManagement:
         if self.last_vam_generation_delta_time is None:
             self.send_next_vam(vam=vam_to_send)
             return
+        if "time" not in tpv:
+            # Without a timestamp the elapsed time cannot be evaluated.
+            return
         received_generation_delta_time = GenerationDeltaTime.from_timestamp(
             parser.parse(tpv["time"]).timestamp()
         )
@@ -673,16 +676,20 @@ class VAMTransmissionManagement:
         ):
             self.send_next_vam(vam=vam_to_send)
             return
-        received_position = (tpv["lat"], tpv["lon"])
+        # lat/lon, speed and track are optional in a TPV report: a trigger is
+        # only evaluated when its input is present.
         if (
-            Utils.euclidian_distance(
-                received_position, self.last_sent_position)
+            "lat" in tpv
+            and "lon" in tpv
+            and Utils.euclidian_distance(
+                (tpv["lat"], tpv["lon"]), self.last_sent_position)
             > vam_constants.MINREFERENCEPOINTPOSITIONCHANGETHRESHOLD
         ):
             self.send_next_vam(vam=vam_to_send)
             return
         if (
-            abs(
+            "speed" in tpv
+            and abs(
                 tpv["speed"]
                 - self.last_vam_speed
             )
